@@ -586,6 +586,41 @@ fn main() {
             bytes_harness(ctx, "bytes_len64k", &big2, &rans);
         }
 
+        // (3a) dominant symbol + k rare symbols: the over-shoot side of the frequency normalisers
+        // (4x8 o0/o1 and, through the shared code, Nx16 order 0/1). rANS configurations only.
+        {
+            let mut skew = Vec::new();
+            if quick {
+                for len in [4097usize, 10000] {
+                    for k in [3usize, 4, 8, 12] {
+                        for placement in 0..3 {
+                            for occ in [1usize, 2] {
+                                skew.push(corpus::dominant_rare(len, k, placement, occ));
+                            }
+                        }
+                    }
+                }
+                for k in [3usize, 12] {
+                    for placement in 0..3 {
+                        skew.push(corpus::dominant_rare(65535, k, placement, 1));
+                    }
+                }
+            } else {
+                for len in [4096usize, 4097, 8192, 10000, 16384, 65535] {
+                    for k in 3..=12usize {
+                        for placement in 0..3 {
+                            for occ in [1usize, 2] {
+                                skew.push(corpus::dominant_rare(len, k, placement, occ));
+                            }
+                        }
+                    }
+                }
+            }
+            corpus::dedup(&mut skew);
+            let confs: Vec<Conf> = rans.iter().copied().filter(|c| !matches!(c, Conf::Aac(_))).collect();
+            bytes_harness(ctx, "bytes_skew", &skew, &confs);
+        }
+
         // (3b) beyond DESIGN.md's list, from a constant visible in the code: the normalisers compute
         // `count * 4095` / `count * 4096` in u32, which overflows from 2^32/4096 + 1 = 1_048_577
         // occurrences of one symbol (a 10 240-record slice of 150-base reads has 1.5 M quality values)
